@@ -8,6 +8,7 @@ package ledger
 import (
 	"encoding/json"
 	"fmt"
+	"github.com/nspcc-dev/neo-go/pkg/crypto/keys"
 	"os"
 	"sort"
 	"strings"
@@ -629,6 +630,12 @@ func (r *run) feed(n *Node, b *block.Block) {
 		}
 	}
 	var err error
+	if r.tape.Chance(1, 6) {
+		// this node's process-wide caches are cold (all simulated nodes share one process: the cache of decoded public
+		// keys is the only process-global mutable state of a node, and it must be transparent)
+		keys.VerifPurgeKeyCache()
+		r.out.Probes["key_cache_purged"]++
+	}
 	if l.FlushMode == 3 && r.tape.Chance(1, 2) {
 		// the flush runs concurrently with AddBlock and lands at a tape-chosen place inside storeBlock
 		var ferr error
